@@ -1000,6 +1000,7 @@ static void elemHertz(Src& c, int scenario) {
 // springs (centroid, area, nearest surface point) are re-derived here through the public geometry API (their
 // correctness is C34-C36's subject) and exported; the model applies the per-spring law and sums.
 static void elemEF(Src& c) {
+    if (c.replay) c.next();                       // nscene token
     double vt = c.val(c.replay ? 0 : (c.rng->coin() ? 0.01 : c.rng->range(0.005, 0.3)));
     double radius = c.real(0.3, 1.0);
     int res = c.ival(c.replay ? 0 : 1 + c.rng->below(2));
